@@ -147,7 +147,7 @@ PROPS["C14"] = dict(
           "(ii) pure half, evaluated on simulated buffers only: hash_bytes/murmur2_x86/murmur2_x64 on the model bytes copied into exact-size heap blocks at alignments 0..7 and in place in the arena, "
           "seeds from the plan, against an independently written reference (counter c14.byte_hash_evaluations). "
           "Non-trivial: at least two state-changing steps. Distinct: distinct run digests (include every hash value)."),
-    probes=["hash_with_stale_bytes", "hash_cross_layout", "hash_whole_blocks", "hash_four_blocks_or_more"],
+    probes=["hash_with_stale_bytes", "hash_cross_layout", "hash_whole_blocks", "hash_four_blocks_or_more", "hash_of_long_key", "hash_of_null_empty_key"],
     components=_FS_COMPONENTS, assumptions=_FS_ASSUME + ["std::hash<xbasic_fixed_string<char16_t>> hashes size() bytes, i.e. half the characters; that is a deterministic function of size() and the characters, so only cross-history equality is required for char16_t"],
 )
 
